@@ -110,8 +110,8 @@ CHECKS = {
          "6 C12", "Trusted: TLC, the Go race detector (dynamic), one mutator goroutine; a 30 s watchdog defines deadlock."),
  "C13": ("TLC exhaustive model checking of MC_Pool (N processes x Rounds of Acquire / Close / nil / second Close on the bounded channel cache "
          "for several (N, K) incl. K = 0, and on the sync.Pool bag; invariants Exclusive / NeverBlocks / CacheBounded, liveness Completion under "
-         "weak fairness; PoolInd: Exclusive / CacheBounded inside an inductive invariant checked with Apalache, i.e. for any number of rounds; under "
-         "weak fairness; legacy check-then-send release and a releasing second Close refuted) + TLC's legacy counterexample reproduced on the real "
+         "weak fairness; legacy check-then-send release and a releasing second Close refuted; PoolInd: Exclusive / CacheBounded inside an inductive "
+         "invariant checked with Apalache, i.e. for any number of rounds and objects) + TLC's legacy counterexample reproduced on the real "
          "cache by spin-barrier rounds + TLC trace validation (PoolTrace) of the acquire/release ledger of an instrumenting provider around the "
          "real providers under 8-64 goroutines of encoded responses, panicking handlers, hijacked connections and gzip request bodies, bodies decoded and compared, "
          "one part under the race detector, double Close per provider and coding",
